@@ -50,7 +50,7 @@ type tr2 struct {
 	helperDefs []string
 	file       *ast.File         // the file being translated (helpers and constants are looked up in it)
 	helpers    map[string]string // package-level helper functions translated on demand: Go name → result kind
-	aliases    map[string]bool   // slice variables that share a backing array with another name
+	aliases    map[string]string // slice variable → the other name of the same backing array (while neither is reassigned)
 	joinN      int
 	hasFuel    bool   // the function takes a fuel parameter (it has a `for cond` loop or calls traverse)
 	retType    string // Lean type of the function's result
@@ -1107,12 +1107,12 @@ func (t *tr2) block(stmts []ast.Stmt, fall string, inLoop bool) string {
 			}
 			return t.fail(st, "Set on something that is not an ordered map of the subset")
 		}
-		if sc := selChain(c.Fun); sc == "sorting.Sort" || sc == "sorting.Reverse" || sc == "sort.SliceStable" {
-			for _, a := range c.Args {
-				if id, ok := a.(*ast.Ident); ok && t.aliases[id.Name] {
-					return t.fail(st, "in-place mutation of a slice that has another name (aliasing is not modelled)")
-				}
+		// an in-place mutation of a slice that has another name changes what both names denote
+		letIP := func(goName, val string) string {
+			if p, ok := t.aliases[goName]; ok {
+				return "(let " + leanName(goName) + " := " + val + "; (let " + leanName(p) + " := " + leanName(goName) + "; " + t.block(rest, fall, inLoop) + "))"
 			}
+			return let(leanName(goName), val)
 		}
 		switch selChain(c.Fun) {
 		case "sorting.Sort":
@@ -1120,7 +1120,7 @@ func (t *tr2) block(stmts []ast.Stmt, fall string, inLoop bool) string {
 			// LamportClock.Compare on defined entries, Sort's ascending less-function is `ret < 0`)
 			if len(c.Args) == 3 && src(t.fset, c.Args[0]) == "sorting.Compare" && src(t.fset, c.Args[2]) == "false" {
 				if id, ok := c.Args[1].(*ast.Ident); ok && t.kinds[id.Name] == "ents" {
-					return let(leanName(id.Name), "(goSort clockAsc "+leanName(id.Name)+")")
+					return letIP(id.Name, "(goSort clockAsc "+leanName(id.Name)+")")
 				}
 			}
 			// sorting.Sort(sortFn, xs, false) with the comparison function chosen before: its ascending less-function is
@@ -1128,19 +1128,19 @@ func (t *tr2) block(stmts []ast.Stmt, fall string, inLoop bool) string {
 			if len(c.Args) == 3 && src(t.fset, c.Args[2]) == "false" {
 				if fn, ok := c.Args[0].(*ast.Ident); ok && t.kinds[fn.Name] == "sortfn" {
 					if id, ok := c.Args[1].(*ast.Ident); ok && t.kinds[id.Name] == "ents" {
-						return let(leanName(id.Name), "(goSort sortAsc "+leanName(id.Name)+")")
+						return letIP(id.Name, "(goSort sortAsc "+leanName(id.Name)+")")
 					}
 				}
 			}
 			// sorting.Sort(l.SortFn, xs, true): the log's descending order (parameter sortDesc)
 			if len(c.Args) == 3 && src(t.fset, c.Args[0]) == t.recv+".SortFn" && src(t.fset, c.Args[2]) == "true" {
 				if id, ok := c.Args[1].(*ast.Ident); ok && t.kinds[id.Name] == "ents" {
-					return let(leanName(id.Name), "(goSort sortDesc "+leanName(id.Name)+")")
+					return letIP(id.Name, "(goSort sortDesc "+leanName(id.Name)+")")
 				}
 			}
 		case "sorting.Reverse":
 			if id, ok := c.Args[0].(*ast.Ident); ok && len(c.Args) == 1 && t.kinds[id.Name] == "ents" {
-				return let(leanName(id.Name), leanName(id.Name)+".reverse")
+				return letIP(id.Name, leanName(id.Name)+".reverse")
 			}
 		case "sort.SliceStable":
 			// sort.SliceStable(xs, func(a, b int) bool { return <less of xs[a], xs[b]> }): the stable
@@ -1166,7 +1166,7 @@ func (t *tr2) block(stmts []ast.Stmt, fall string, inLoop bool) string {
 					less, k := t.expr(ret.Results[0])
 					t.subst = old
 					if k == "bool" {
-						return let(leanName(id.Name), "(goSort (fun (sa sb : Entry) => "+less+") "+leanName(id.Name)+")")
+						return letIP(id.Name, "(goSort (fun (sa sb : Entry) => "+less+") "+leanName(id.Name)+")")
 					}
 				}
 			}
@@ -1205,6 +1205,17 @@ func (t *tr2) block(stmts []ast.Stmt, fall string, inLoop bool) string {
 }
 
 func (t *tr2) assign(x *ast.AssignStmt, rest []ast.Stmt, fall string, inLoop bool) string {
+	// a name that is given a new value stops being another name of the old array
+	if len(x.Lhs) == 1 && len(x.Rhs) == 1 && (x.Tok == token.ASSIGN || x.Tok == token.DEFINE) {
+		if id, ok := x.Lhs[0].(*ast.Ident); ok {
+			if _, bare := x.Rhs[0].(*ast.Ident); !bare {
+				if p, ok := t.aliases[id.Name]; ok {
+					delete(t.aliases, id.Name)
+					delete(t.aliases, p)
+				}
+			}
+		}
+	}
 	// xs := make([]T, len(ys)); for i, e := range ys { xs[i] = f(e) }   →   xs := ys.map f
 	if x.Tok == token.DEFINE && len(x.Lhs) == 1 && len(x.Rhs) == 1 && len(rest) > 0 {
 		if mk, ok := x.Rhs[0].(*ast.CallExpr); ok && src(t.fset, mk.Fun) == "make" && len(mk.Args) == 2 {
@@ -1449,12 +1460,15 @@ func (t *tr2) assign(x *ast.AssignStmt, rest []ast.Stmt, fall string, inLoop boo
 		return t.fail(x, "operator assignment")
 	}
 	if rid, isIdent := x.Rhs[0].(*ast.Ident); isIdent && (kv == "ents" || kv == "cids") && (x.Tok == token.DEFINE || x.Tok == token.ASSIGN) {
-		// two names for one backing array: an in-place mutation through either is then rejected
+		// two names for one backing array: an in-place mutation through either is a mutation of both
 		if t.aliases == nil {
-			t.aliases = map[string]bool{}
+			t.aliases = map[string]string{}
 		}
-		t.aliases[id.Name] = true
-		t.aliases[rid.Name] = true
+		if _, taken := t.aliases[rid.Name]; taken {
+			return t.fail(x, "a third name for one slice")
+		}
+		t.aliases[id.Name] = rid.Name
+		t.aliases[rid.Name] = id.Name
 	}
 	switch x.Tok {
 	case token.DEFINE:
@@ -2752,6 +2766,61 @@ func (t *tr2) fromMultihashDecls(fio, flog *ast.File) string {
 	return defA + "\n" + defB
 }
 
+// fromEntryHashDecls: fromEntryHash (log_io.go) around its fetch — the trim length, and what is made of the fetched
+// entries (sorted through one name of the slice, trimmed through the other)
+func (t *tr2) fromEntryHashDecls(f *ast.File) string {
+	fd := findFunc(f, "fromEntryHash")
+	if fd == nil || fd.Body == nil {
+		return t.fail(&ast.BlockStmt{}, "fromEntryHash not found")
+	}
+	t.prepare(fd)
+	iFetch, iLen := -1, -1
+	for i, st := range fd.Body.List {
+		if strings.Contains(src(t.fset, st), "FetchParallel") {
+			iFetch = i
+		}
+		if as, ok := st.(*ast.AssignStmt); ok && as.Tok == token.DEFINE && len(as.Lhs) == 1 && src(t.fset, as.Lhs[0]) == "length" && iFetch < 0 {
+			iLen = i
+		}
+	}
+	if iFetch < 0 || iLen < 0 || iLen+1 >= iFetch+1 {
+		return t.fail(fd, "shape of fromEntryHash")
+	}
+	if as, ok := fd.Body.List[iFetch].(*ast.AssignStmt); !ok || len(as.Lhs) != 1 || src(t.fset, as.Lhs[0]) != "all" {
+		return t.fail(fd.Body.List[iFetch], "the fetch result is not `all`")
+	}
+	reset := func(name, ret string, partial bool) {
+		t.subst = map[string]string{}
+		t.loops, t.helperDefs, t.aliases = nil, nil, nil
+		t.fn, t.recv, t.brk, t.noResult, t.emitter = name, "", "", "", ""
+		t.monadic, t.joinN, t.hasFuel, t.usesFuel, t.partial = 0, 0, false, false, partial
+		t.retType = ret
+	}
+	reset("fromEntryHashLength", "Int", false)
+	t.kinds = map[string]string{"options": "fetchopts"}
+	t.params = []string{"(optLength : Option Int)"}
+	t.pnames = []string{"optLength"}
+	a := strings.Join(strings.Fields(t.block(fd.Body.List[iLen:iFetch], "length", false)), " ")
+	defA := "def fromEntryHashLength (optLength : Option Int) : Int :=\n  " + a + "\n"
+	// the tail: the choice of the comparison function is the parameter sortAsc (its ascending less-function)
+	reset("fromEntryHashTail", "Option (List Entry)", true)
+	t.kinds = map[string]string{"options": "fetchopts", "all": "ents", "length": "int", "sortFn": "sortfn"}
+	t.params = []string{"(sortAsc : Entry → Entry → Bool)", "(all : List Entry)", "(length : Int)"}
+	t.pnames = []string{"sortAsc", "all", "length"}
+	var tail []ast.Stmt
+	for _, st := range fd.Body.List[iFetch+1:] {
+		txt := src(t.fset, st)
+		if strings.HasPrefix(txt, "sortFn :=") || strings.HasPrefix(txt, "if options.SortFn != nil") {
+			continue
+		}
+		tail = append(tail, st)
+	}
+	b := strings.Join(strings.Fields(t.block(tail, "", false)), " ")
+	defB := strings.Join(t.loops, "\n") + "def fromEntryHashTail (sortAsc : Entry → Entry → Bool) (all : List Entry) (length : Int) : Option (List Entry) :=\n  " + b + "\n"
+	t.loops = nil
+	return defA + "\n" + defB
+}
+
 func findMethod(f *ast.File, name string) *ast.FuncDecl {
 	for _, d := range f.Decls {
 		if fd, ok := d.(*ast.FuncDecl); ok && fd.Name.Name == name && fd.Recv != nil {
@@ -2773,7 +2842,7 @@ func renderSlices(repo string) map[string]string {
 		jobs []job
 	}{
 		{"Misc", []job{{"log.go", []string{"maxClockTimeForEntries", "#setIdentity"}}, {"entry/entry.go", []string{"uniqueCIDs"}}}},
-		{"Loaders", []job{{"entry/utils.go", []string{"Difference"}}, {"log_io.go", []string{"entryLastN", "entryLastNKeeping", "entrySliceRange", "#fromEntry", "#fromJSON", "#fromMultihash"}}}},
+		{"Loaders", []job{{"entry/utils.go", []string{"Difference"}}, {"log_io.go", []string{"entryLastN", "entryLastNKeeping", "entrySliceRange", "#fromEntry", "#fromJSON", "#fromMultihash", "#fromEntryHash"}}}},
 		{"Heads", []job{{"entry/utils.go", []string{"FindHeads"}}}},
 		{"NewLog", []job{{"log.go", []string{"#newLog"}}}},
 		{"Traverse", []job{{"log.go", []string{"traverse"}}}},
@@ -2831,6 +2900,10 @@ func renderSlices(repo string) map[string]string {
 						continue
 					}
 					fmt.Fprintf(&b, "/-- `fromMultihash` (%s) and `NewFromMultihash` (log.go) around the fetch -/\n%s\n", j.file, cleanDecl(t.fromMultihashDecls(f, flog)))
+					continue
+				}
+				if n == "#fromEntryHash" {
+					fmt.Fprintf(&b, "/-- `fromEntryHash` (%s) around the fetch -/\n%s\n", j.file, cleanDecl(t.fromEntryHashDecls(f)))
 					continue
 				}
 				if n == "#admission" {
